@@ -6,7 +6,7 @@ func init() {
 	kit.Register(&kit.PropertySpec{
 		ID: "C20", Engine: "syncsim",
 		Profiles:  []kit.ProfileSpec{{Name: "deliver", Weight: 5}, {Name: "restart", Weight: 2}, {Name: "sync2", Weight: 1}},
-		QuickRuns: 8000, QuickBudgetS: 35, ThoroughRuns: 4000000, ThoroughBudgetS: 600,
+		QuickRuns: 8000, QuickBudgetS: 30, ThoroughRuns: 4000000, ThoroughBudgetS: 600,
 		Rule: "one run = one tape-drawn source state built with the real world state in database A (2-4 accounts with storage tries, shared storage/code, contracts with current and next code and object graphs, " +
 			"0-3 validators, a second generation of mutations so that A also holds stale nodes; layer 1 adds a plain bytes trie with short keys and an object trie whose leaves point at blobs) and an empty journaling database B. " +
 			"Profiles deliver/restart (layer 1): real merkle.NewBuilder(B) + NewWorldSnapshotWithBuilder/Resolve from the trusted roots only; a delivery scheduler looks at Requests() and per step delivers, by tape: the correct value of any pending request, " +
